@@ -42,13 +42,18 @@ def gen_case(rnd, tier: str, i: Any) -> Dict[str, Any]:
     first_step = gen_sim.pick_first_step(rnd)
     n_steps = rnd.choice([0, 1, 2, 2, 3, 5])
     files = {}
+    ragged = n_ranks > 1 and n_steps >= 2 and rnd.random() < 0.3     # ranks that recorded different (non-empty) subsets of the steps
     for r in range(n_ranks):
-        p = gen_sim.random_params(rnd, tier, rank=r, first_step=first_step, n_steps=n_steps, pre_ops=rnd.choice([0, 1, 2]),
+        fs, ns = first_step, n_steps
+        if ragged and r > 0:
+            ns = rnd.randint(1, n_steps)
+            fs = first_step + rnd.randint(0, n_steps - ns)
+        p = gen_sim.random_params(rnd, tier, rank=r, first_step=fs, n_steps=ns, pre_ops=rnd.choice([1, 2]) if ragged else rnd.choice([0, 1, 2]),
                                   post_ops=rnd.choice([0, 1, 2]), step_gap=rnd.choice([(0,), (0, 1, 1, 7), (7, 30)]))
         tr = gen_sim.gen_trace(rnd, **p)
         gen_sim.drop_events(rnd, tr, p_launch=rnd.choice([0, 0, 0.15]), p_kernel=rnd.choice([0, 0, 0.15]))
         files[f"rank{r}.json"] = tr
-    return {"files": files, "cfg": {"inc_last": rnd.random() < 0.45, "mp": rnd.random() < 0.3}}
+    return {"files": files, "cfg": {"inc_last": rnd.random() < 0.45, "mp": rnd.random() < 0.3}, "ragged_steps": ragged}
 
 
 def fixed_cases(tier: str):
